@@ -35,6 +35,10 @@ use verif_harness::{Cfg, r#gen::Rng, guarded, out::Out, out::hex};
 const NARROW: [char; 8] = ['a', 'b', 'c', 'x', '|', '.', 'é', 'Ж'];
 const WIDE: [char; 3] = ['世', '界', '😀'];
 const ZERO: [char; 2] = ['\u{0301}', '\u{200b}'];
+const BOUNDARY: [char; 20] = [
+    '\u{7f}', '\u{80}', '\u{7ff}', '\u{800}', '\u{fff}', '\u{1000}', '\u{cfff}', '\u{d000}', '\u{d7bf}', '\u{d7c0}', '\u{d7ff}', '\u{e000}',
+    '\u{fffd}', '\u{ffff}', '\u{10000}', '\u{3ffff}', '\u{40000}', '\u{fffff}', '\u{100000}', '\u{10ffff}',
+];
 
 /// unicode width of a character. For the alphabet of the generators (ASCII, `é`, `Ж`, three wide and two
 /// zero width characters: fixed by the Unicode standard) an independent table, so that model requests and
@@ -539,7 +543,7 @@ impl SO {
         })
     }
     fn chars(&self) -> Vec<char> {
-        let lossy = |b: &[u8]| String::from_utf8_lossy(b).chars().filter(|c| *c != '\u{fffd}').collect::<Vec<char>>();
+        let lossy = |b: &[u8]| String::from_utf8_lossy(b).chars().collect::<Vec<char>>();
         match self {
             SO::Put(c) => cells_chars(std::slice::from_ref(c)),
             SO::Chr(c) => vec![*c],
@@ -1143,6 +1147,15 @@ impl Ctx {
                 writer.set_wraps(case.wraps);
                 writer.set_face(case.wface.face());
                 match case.mode.as_str() {
+                    // reference route: the characters of a well-formed text put one by one
+                    "p" => {
+                        for ch in chunks {
+                            for c in String::from_utf8_lossy(ch).chars() {
+                                writer.put_char(c);
+                            }
+                            results.push(true);
+                        }
+                    }
                     "w" => {
                         for ch in chunks {
                             let r = writer.write(ch);
@@ -1184,7 +1197,7 @@ impl Ctx {
     fn eval_write(&mut self, case: &Case) {
         let widths = {
             let s = String::from_utf8_lossy(&case.bytes).to_string();
-            widths_tok(s.chars().filter(|c| *c != '\u{fffd}'))
+            widths_tok(s.chars())
         };
         let win = window(case.h, case.w, &case.steps);
         let mut first: Option<(Vec<usize>, String)> = None;
@@ -1207,6 +1220,8 @@ impl Ctx {
                 self.out.corr(&req, &ans);
             }
             self.out.case(&format!("{} {:?} {}", hex(&case.bytes), part, ans), part.len() >= 2 && case.bytes.len() >= 2);
+            // (a refused write is not judged by itself: after a `put_char` that returned false the rest of a
+            // write is dropped undecoded, so the next write may legitimately start inside a character)
             match &res {
                 Err(()) => {
                     let mut c1 = case.clone();
@@ -1235,13 +1250,29 @@ impl Ctx {
                 }
             }
         }
+        // a well-formed text (no escape sequences) written as bytes must give the cells of its characters put
+        // one by one, and no write may be refused: no character is lost on the way through the decoder
+        if let (Some((p0, c0)), Ok(_)) = (&first, std::str::from_utf8(&case.bytes)) {
+            if !case.bytes.contains(&0x1b) && c0 != "panic" {
+                let mut c2 = case.clone();
+                c2.mode = "p".into();
+                if let Ok((_, _, canvas)) = self.write_session(&c2, std::slice::from_ref(&case.bytes)) {
+                    let want = canvas_tok(&canvas);
+                    if want != *c0 {
+                        let mut c1 = case.clone();
+                        c1.parts = vec![p0.clone()];
+                        self.fail("writing a well-formed text as bytes does not give the cells of its characters (a character was lost or altered by the decoder)", &c1, json!(want), json!(c0));
+                    }
+                }
+            }
+        }
         self.out.hist(&format!("write-{}/{}", case.mode, view_class(&case.steps)));
     }
 
     fn eval_tty(&mut self, case: &Case) {
         let win = window(case.h, case.w, &case.steps);
         // (the model reads the bytes itself: `c09 ttys`; nothing of the request comes from the crate's decoder)
-        let chars: Vec<char> = String::from_utf8_lossy(&case.bytes).chars().filter(|c| *c != '\u{fffd}').collect();
+        let chars: Vec<char> = String::from_utf8_lossy(&case.bytes).chars().collect();
         let mut first: Option<(Vec<usize>, String)> = None;
         for (i, part) in case.parts.iter().enumerate() {
             let chunks = split(&case.bytes, part);
@@ -1291,6 +1322,22 @@ impl Ctx {
                         c1.parts = vec![p0.clone(), part.clone()];
                         self.fail("cells produced depend on how the written bytes were split across write calls", &c1, json!({"partition": p0, "canvas": c0}), json!({"partition": part, "canvas": cells}));
                         return;
+                    }
+                }
+            }
+        }
+        // a well-formed text (no escape sequences) written as bytes must give the cells of its characters put
+        // one by one, and no write may be refused: no character is lost on the way through the decoder
+        if let (Some((p0, c0)), Ok(_)) = (&first, std::str::from_utf8(&case.bytes)) {
+            if !case.bytes.contains(&0x1b) && c0 != "panic" {
+                let mut c2 = case.clone();
+                c2.mode = "p".into();
+                if let Ok((_, _, canvas)) = self.write_session(&c2, std::slice::from_ref(&case.bytes)) {
+                    let want = canvas_tok(&canvas);
+                    if want != *c0 {
+                        let mut c1 = case.clone();
+                        c1.parts = vec![p0.clone()];
+                        self.fail("writing a well-formed text as bytes does not give the cells of its characters (a character was lost or altered by the decoder)", &c1, json!(want), json!(c0));
                     }
                 }
             }
@@ -1432,10 +1479,13 @@ impl Gen {
         F { fg, bg, attrs: *self.rng.pick(&[0u16, 0, 8, 16, 1, 24]) }
     }
     fn plain_char(&mut self) -> char {
-        match self.rng.below(10) {
+        match self.rng.below(12) {
             0..=5 => *self.rng.pick(&NARROW),
             6..=7 => *self.rng.pick(&WIDE),
-            _ => *self.rng.pick(&ZERO),
+            8..=9 => *self.rng.pick(&ZERO),
+            // first and last scalar value of every row of the UTF-8 table (Unicode Table 3-7) and of
+            // every encoded length: a decoder that rejects or mis-assembles one of them loses the cell
+            _ => *self.rng.pick(&BOUNDARY),
         }
     }
     /// fallback string of a glyph: narrow, wide and zero width characters and, now and then, `\n`, `\t`, `\r`
@@ -1887,7 +1937,7 @@ fn main() {
         c.steps = steps;
         let short = g.rng.chance(1, 2);
         let n = if short { 1 + g.rng.below(4) as usize } else { 5 + g.rng.below(20) as usize };
-        c.bytes = if mode == "t" { g.tty_stream(n) } else { g.utf8_stream(n, i % 5 == 4) };
+        c.bytes = if mode == "t" && i % 4 != 1 { g.tty_stream(n) } else { g.utf8_stream(n, i % 5 == 4) };
         c.parts = g.partitions(c.bytes.len(), if cfg.thorough { 12 } else { 8 }, if cfg.thorough { 40 } else { 12 });
         if i % 100 == 0 {
             ctx.out.sample(c.to_json());
@@ -2034,7 +2084,7 @@ fn main() {
         let wraps = g.rng.chance(1, 2);
         let widths = {
             let s = String::from_utf8_lossy(&bytes).to_string();
-            widths_tok(s.chars().filter(|c| *c != '\u{fffd}'))
+            widths_tok(s.chars())
         };
         let mut first: Option<Vec<String>> = None;
         for (i, part) in parts.iter().enumerate() {
@@ -2062,6 +2112,18 @@ fn main() {
                 );
             }
             ctx.out.case(&format!("textsink {} {:?}", hex(&bytes), part), part.len() >= 2);
+            if let Ok(t) = std::str::from_utf8(&bytes) {
+                let want: Vec<K> = t.chars().map(K::Ch).collect();
+                let got: Vec<K> = text.cells().iter().map(kind_of).collect();
+                if want != got {
+                    let mut c = Case::blank("write");
+                    c.mode = "x".into();
+                    c.bytes = bytes.clone();
+                    c.parts = vec![part.clone()];
+                    ctx.out.fail("a Text fed a well-formed text through utf8_writer does not hold its characters", c.to_json(), json!(want.iter().map(kind_tok).collect::<Vec<_>>()), json!(got.iter().map(kind_tok).collect::<Vec<_>>()));
+                    break;
+                }
+            }
             match &first {
                 None => first = Some(cells),
                 Some(f) => {
